@@ -32,7 +32,7 @@ RULE = ("a case is one program of the enumerated catalogue (sim/vprog): one publ
 
 def nontrivial(name):
     entry, rep, shape, x, y, cb, t = name.split("/")
-    if entry in M.GENERATED:
+    if entry in M.GENERATED or entry == "rand_tree":
         return True
     return x not in ("in0", "inlast") or y not in ("in0", "inlast") or cb != "cb0" or t not in ("t0", "t1") \
         or shape.startswith("map")
